@@ -13,7 +13,7 @@ pub fn property() -> Property {
     Property {
         id: "C04",
         level: "exploration",
-        rule: "Generator-built response heads (status 100..999 exhaustively; reason phrases absent/multi-word/UTF-8/Latin-1 and other non-UTF-8 obs-text/long; Content-Encoding (gzip, deflate, br, ...) and Content-Length fields that the body pipeline consumes; version tokens HTTP/1.1, HTTP/1.0, ICY, arbitrary; header lists of 0..max_headers fields with names over the RFC token alphabet, values over visible ASCII + inner spaces + obs-text + empty, surrounding blanks, adjacent and interleaved duplicates, bare-LF continuations, lines up to 16 000 bytes, blocks > 8 KiB, exactly max_headers fields for max_headers in {1,2,7,100,1000}, and heads within the boundary limits {0, 24 577, 100 000, u32::MAX, usize::MAX}; Transfer-Encoding: chunked inserted at a random position) served under all 2^(n-1) segmentations of a 14-byte head (exhaustive), bytewise, every single split, or random segments. Oracle: status() == code sent; for every name the get_all() sequence equals the generator's values in wire order after (trim spaces, LF -> space); total count equal; Transfer-Encoding absent. Non-trivial: >= 1 header field or >= 2 segments; distinct = hash(head bytes, segmentation, max_headers).",
+        rule: "Generator-built response heads (status 100..999 exhaustively; reason phrases absent/multi-word/UTF-8/Latin-1 and other non-UTF-8 obs-text/long; Content-Encoding (gzip, deflate, br, ...) and Content-Length fields that the body pipeline consumes; version tokens HTTP/1.1, HTTP/1.0, ICY, arbitrary; header lists of 0..max_headers fields with names over the RFC token alphabet, values over visible ASCII + inner spaces + obs-text + empty, surrounding blanks, adjacent and interleaved duplicates, bare-LF continuations, lines up to 16 000 bytes and of exactly 16 382 / 16 383 / 16 384 bytes (the line limit, line ending included; as first field, last field or status line, plain or with bare-LF continuations), blocks > 8 KiB, exactly max_headers fields for max_headers in {1,2,7,100,1000}, and heads within the boundary limits {0, 24 577, 100 000, u32::MAX, usize::MAX}; Transfer-Encoding: chunked inserted at a random position) served under all 2^(n-1) segmentations of a 14-byte head (exhaustive), bytewise, every single split, or random segments. Oracle: status() == code sent; for every name the get_all() sequence equals the generator's values in wire order after (trim spaces, LF -> space); total count equal; Transfer-Encoding absent. Non-trivial: >= 1 header field or >= 2 segments; distinct = hash(head bytes, segmentation, max_headers).",
         assumptions: &["only syntactically valid heads are generated (invalid names/values belong to C05)", "HTAB padding and blanks before the colon are not generated (the statement speaks of spaces)"],
         min_nontrivial: |t| t.pick(5_000, 100_000),
         gens,
@@ -28,6 +28,7 @@ fn gens(tier: Tier) -> Vec<Gen> {
         Gen { name: "allsplits", count: 1 << 13, exhaustive: true, run: run_allsplits },
         Gen { name: "splitpoints", count: splitpoints_count(), exhaustive: true, run: run_splitpoints },
         Gen { name: "random", count: tier.pick(5_000, 200_000), exhaustive: false, run: run_random },
+        Gen { name: "line-length-boundary", count: (4 * 3 * 2) as u64, exhaustive: true, run: run_line_boundary },
         Gen { name: "limits", count: tier.pick(300, 6_000), exhaustive: false, run: run_limits },
     ]
 }
@@ -402,4 +403,40 @@ fn run_limits(ctx: &mut Ctx, rng: &mut Rng, _index: u64) {
     ctx.count("exactly_max_headers_cases", 1);
     let seg = if rng.bool() { Segmentation::Whole } else { respgen::random_segmentation(rng, head.wire().len(), &[]) };
     check_head(ctx, &head, &seg, Some(max), "limits");
+}
+
+/// header (and status) lines whose length, line ending included, is just below and exactly at the
+/// 16 384-byte line limit are within the limits: accepted, value exact
+fn run_line_boundary(ctx: &mut Ctx, _rng: &mut Rng, index: u64) {
+    let total = [16_000usize, 16_382, 16_383, 16_384][(index % 4) as usize];
+    let place = (index / 4) % 3; // 0: first field, 1: last of three fields, 2: the status line's reason phrase
+    let folded = (index / 12) % 2 == 1;
+    let mut fields = vec![Field { name: "X-A".into(), raw_value: b" 1".to_vec() }, Field { name: "X-B".into(), raw_value: b" 2".to_vec() }];
+    let long_value = |name_len: usize| -> Vec<u8> {
+        // name ':' SP value CRLF == total
+        let n = total - name_len - 1 - 1 - 2;
+        let mut v = vec![b' '];
+        v.extend((0..n).map(|i| if folded && i % 4000 == 1999 { b'\n' } else { b'a' + (i % 26) as u8 }));
+        // a bare LF must be followed by a blank (continuation); keep the length
+        for i in 1..v.len() {
+            if v[i - 1] == b'\n' {
+                v[i] = b' ';
+            }
+        }
+        v
+    };
+    let mut reason = Some(b"OK".to_vec());
+    match place {
+        0 => fields.insert(0, Field { name: "X-Long".into(), raw_value: long_value(6) }),
+        1 => fields.push(Field { name: "X-Long".into(), raw_value: long_value(6) }),
+        _ => {
+            // "HTTP/1.1 200 " + reason + CRLF == total
+            let n = total - 13 - 2;
+            reason = Some((0..n).map(|i| b'A' + (i % 26) as u8).collect());
+        }
+    }
+    let head = Head { version: "HTTP/1.1".into(), code: 200, reason, fields, chunked: false };
+    ctx.count("lines_at_the_length_boundary", 1);
+    let seg = if index % 2 == 0 { Segmentation::Whole } else { Segmentation::Cuts(vec![8192, 16_384, 16_390]) };
+    check_head(ctx, &head, &seg, None, "line-length-boundary");
 }
